@@ -233,6 +233,18 @@ func cmpInt(mode string) func(a, b int) int {
 	}
 }
 
+// comparison by rank without counting (used by the harness itself)
+func cmpIntQuiet(mode string, a, b int) int {
+	ra, rb := rankOf(mode, a), rankOf(mode, b)
+	switch {
+	case ra < rb:
+		return -1
+	case ra > rb:
+		return 1
+	}
+	return 0
+}
+
 // values of key-value containers are of a distinct type so that state identity can ignore them
 type V int
 
